@@ -188,6 +188,12 @@ func effectsCmd(args []string) error {
 		if found {
 			os.WriteFile(filepath.Join(proj, "spokfile"), []byte(src), 0o644)
 		}
+		// files with names a tool might use for scratch copies of the spokfile: no action may touch them
+		for _, d := range []string{"spokfile.tmp", ".spokfile.tmp", "spokfile.bak", "spokfile~", ".spokfile.swp"} {
+			if r.Intn(3) == 0 {
+				os.WriteFile(filepath.Join(proj, d), []byte(strings.Repeat("# somebody's scratch copy\n", 60)), 0o644)
+			}
+		}
 		cwd := proj
 		if r.Intn(3) == 0 {
 			cwd = filepath.Join(proj, "sub", "deep")
